@@ -11,7 +11,7 @@ PYTHONPATH=$wt/src timeout 120 /venv/bin/python $demo > /tmp/confirm/$name.demo0
 git apply $patch || { echo "{\"name\":\"$name\",\"error\":\"patch does not apply\"}"; git -C /repo worktree remove --force $wt; exit 1; }
 PYTHONPATH=$wt/src timeout 120 /venv/bin/python $demo > /tmp/confirm/$name.demo1.out 2>&1 < /dev/null; d1=$?
 PYTHONPATH=$wt/src timeout 2400 /venv/bin/python -m pytest -q -p no:cacheprovider --timeout=900 "$@" > /tmp/confirm/$name.tests.out 2>&1 < /dev/null
-summary=$(tail -1 /tmp/confirm/$name.tests.out | tr -d '=')
+summary=$(grep -E '(passed|failed|error).* in [0-9.]+s' /tmp/confirm/$name.tests.out | tail -1 | tr -d '=')
 failed=$(grep "^FAILED" /tmp/confirm/$name.tests.out | grep -v test_eager_batcher | tr '\n' ';')
 cd /; git -C /repo worktree remove --force $wt
 echo "{\"name\":\"$name\",\"demo_without\":$d0,\"demo_with\":$d1,\"tests\":\"$summary\",\"failed_other_than_baseline\":\"$failed\"}"
